@@ -40,9 +40,9 @@ CHECKS.update({
             "Cosine/InnerProduct accept either of the engine's two documented distance forms (1-dot on stored vectors, 1-cos). Completeness is judged only for results with exactly k entries (the property's wording) and only for documents present in the recent-write tier at judgement time. Degraded paths are excluded.",
             "DESIGN.md §3 C06"),
     "C07": ("exploration",
-            "model-based property testing with boundary-aimed generation; history oracle over the search/write log",
+            "model-based property testing with boundary-aimed generation and a history oracle over the search/write log; schedule enumeration (single preemption, complete) and generation for searcher || writer under the controlled scheduler",
             "Generated search/write histories over a small query pool, 3 scopes, k in {1,2,3,5,10}, cache capacities {1,2,16}, dims on both sides of the 32-lane prefix, with writes placed at relative offsets 1e-6..0.5 on both sides of the cached boundary (tail-heavy energy), deletes/overwrites of cached ids, bulk loads, drains, stale-mirror pokes. Every CacheHit must be explainable by a same-scope store of an equivalent query with k' >= k, contain only live ids with distances matching their current vectors, and omit no document written since the store that lies strictly inside the boundary.",
-            "Sequential part only so far (the searcher||writer schedule part needs the scheduler engine). Similarity threshold 1.0. Equal 1/32768-quantised normalised queries are one key by documented design. Metadata-dependent staleness is a server-level (filter) matter and is judged there.",
+            "Schedule part (race_pairs / race_programs): one searcher against one writer under the controlled scheduler (cache empty / warmed with the query / warmed with another query x mirrored / drained documents x k 1-3 x 8 writer operations x every single-preemption schedule, plus generated programs and 1-4 preemptions); after both threads finished the query is searched again and a CacheHit must equal the exact top-k of the final collection (Euclidean line set-up with a unique top-k). Similarity threshold 1.0. Equal 1/32768-quantised normalised queries are one key by documented design. Metadata-dependent staleness is a server-level (filter) matter and is judged there.",
             "DESIGN.md §3 C07"),
 })
 
